@@ -1,11 +1,67 @@
-(* C04 - Closing and reopening preserves the series exactly
+(* C04 - Close / reopen is the identity
    Property theorems only: statements, `exact <lemma>`, Print Assumptions, Check pins.
    Layers: F = documented format (Format.v), S = abstract spec (Spec/SpecStep), I = model of the Rust (World.step'). *)
 From Coq Require Import List NArith Bool Arith Sorted.
 From Coq Require Import Strings.Byte.
 Require Import BS.Bytes BS.Common BS.Api BS.Layout BS.Format BS.FormatFacts BS.Spec BS.SpecStep.
-Require Import BS.FS BS.FSFacts BS.Meta BS.MetaFacts BS.Header BS.Reader BS.ReaderFacts BS.Index BS.Data BS.DataFacts BS.Seek BS.Series BS.SeriesFacts.
+Require Import BS.FS BS.FSFacts BS.Meta BS.MetaFacts BS.Header BS.Reader BS.ReaderFacts BS.Index BS.Data BS.DataFacts BS.Seek BS.Series BS.SeriesFacts BS.ReadAllFacts BS.TotalFacts BS.ExtractFacts BS.OpenFacts.
 Import ListNotations.
 
-(* theorems for this property are added as the development grows; until then the property is
-   decided by the judge (Layer S/F, extracted) on the implementation and by the correspondence check *)
+
+
+(* (I) Reopening a series whose handle satisfied the representation invariant (RepH: established by create, kept
+   by every accepted append - C17_create, C03) gives a handle that satisfies the invariant for the SAME list of
+   lines, returns the stored user header, and leaves the file system exactly as it is (the result state is `fs`
+   itself: no file is rewritten, truncated, created or removed). By the theorems of C01, C02, C10, C12, C13, C14
+   - all stated for any handle under RepH - every read and accessor then answers as before the close.
+   Holds for any list of lines and any payload size, under three conditions whose status is:
+     (a) the header parser recognises the header in the file: proved for the library's own preamble in C17_header_roundtrip
+         when present, otherwise a hypothesis on the header bytes only;
+     (b) tail_clean: the tail check of FileWithInlineMeta::new sees no pair of marker slots in the last K slots. Proved
+         for payload sizes >= 4 (C04_tail_clean_p4). For payload sizes 0..3 it fails exactly for the known finding D6
+         (0xFFFF words in the continuation slots of the last section), see C04_open_intact_refuted;
+     (c) the backwards search for the last full timestamp succeeds: proved when the data region fits the search
+         window (C04_last_meta_short, >= 10 000 bytes). *)
+Theorem C04_reopen : forall p fs s header uhdr name popt hdropt cb l,
+  RepH fs s p (outer header) (outer []) l ->
+  of_name (d_file (s_data s)) = name ++ ext_data -> of_name (ix_file (d_index (s_data s))) = name ++ ext_index ->
+  (len header <= 65535)%N -> (len (encode p l) < 2^64)%N ->
+  check_and_split header popt = Ok (N.of_nat p, uhdr) ->
+  (l = [] \/ tail_clean p (encode p l)) ->
+  last_meta_timestamp p (encode p l) = Ok (full_after p None l) ->
+  match hdropt with HdrIs e => e = uhdr | HdrAny => True end ->
+  exists s', builder_open name popt hdropt [] cb fs = (fs, Ok (s', uhdr))
+    /\ RepH fs s' p (outer header) (outer []) l /\ s_cb s' = cb
+    /\ of_name (d_file (s_data s')) = name ++ ext_data /\ of_name (ix_file (d_index (s_data s'))) = name ++ ext_index.
+Proof. exact reopen_ok. Qed.
+Print Assumptions C04_reopen.
+
+Theorem C04_tail_clean_p4 : forall p l, 4 <= p -> wf_series p l -> l <> [] -> tail_clean p (encode p l).
+Proof. exact tail_clean_p4. Qed.
+Print Assumptions C04_tail_clean_p4.
+
+Theorem C04_last_meta_short : forall p l, wf_series p l -> (len (encode p l) <= meta_window p)%N ->
+  last_meta_timestamp p (encode p l) = Ok (full_after p None l).
+Proof. exact last_meta_short. Qed.
+Print Assumptions C04_last_meta_short.
+
+(* the data-file half alone: Data::open_existing on a cleanly written pair of files *)
+Theorem C04_data_open : forall p fs name header cb l,
+  wf_series p l -> (len header <= 65535)%N -> (len (encode p l) < 2^64)%N ->
+  fs_get fs (name ++ ext_data) = Some (outer header ++ encode p l) ->
+  fs_get fs (name ++ ext_index) = Some (outer [] ++ enc_index (sections p (encode p l))) ->
+  (l = [] \/ tail_clean p (encode p l)) ->
+  last_meta_timestamp p (encode p l) = Ok (full_after p None l) ->
+  exists d, data_open name {| of_name := name ++ ext_data; of_off := len (outer header) |} p cb fs = (fs, Ok d)
+    /\ RepD fs d p (outer header) (outer []) (encode p l) (full_after p None l) (option_map fst (last_opt l))
+    /\ of_name (d_file d) = name ++ ext_data /\ of_name (ix_file (d_index d)) = name ++ ext_index.
+Proof. exact data_open_ok. Qed.
+Print Assumptions C04_data_open.
+
+(* the statement without condition (b) is false of the model and of the library: the known finding D6.
+   Witness (replayed on the library by corpus/C04/d6_marker_tail.bs): payload size 0, one line at 65535. *)
+Theorem C04_open_intact_refuted :
+  wf_series 0 [(65535%N, [])] /\ ~ tail_clean 0 (encode 0 [(65535%N, [])])
+  /\ snd (World.run World.init_world d6_ops) = [ROpened 0 []; RUnit; RUnit; ROPanic].
+Proof. exact d6_refuted. Qed.
+Print Assumptions C04_open_intact_refuted.
